@@ -207,7 +207,7 @@ def oracle(case, res):
         got = pfile.parse_obs(st['obs'])
         renamed = case['ops'][i][0] == 'renamedim'
         for k, (ln, u) in got['dims'].items():
-            if k in st['unlim_before'] and not renamed and case['ops'][i][0] not in ('stackself',):
+            if k in st['unlim_before'] and not renamed:
                 if (u == 'u') != st['unlim_before'][k]:
                     return 'after step %d (%s): dimension %s changed its unlimited flag' % (i, case['ops'][i][0], k)
     return None
